@@ -42,6 +42,7 @@ type Run struct {
 	Quiet  bool // do not print events (they are still collected)
 	Events []map[string]interface{}
 	toks   map[uintptr]int
+	keep   []interface{} // the registered token objects: while they are reachable no other object can get their address
 	calls  int
 	FailAt int // the FailAt-th action call returns an error (0: none)
 	Gate   func(kind string) // called before every scan and action call (schedule control)
@@ -71,6 +72,7 @@ func (r *Run) Emit(ev map[string]interface{}) {
 func (r *Run) RegisterToken(ptr interface{}, idx int) {
 	r.mu.Lock()
 	r.toks[reflect.ValueOf(ptr).Pointer()] = idx
+	r.keep = append(r.keep, ptr)
 	r.mu.Unlock()
 }
 
